@@ -1,9 +1,10 @@
 module verifharness
 
-go 1.19
+go 1.21
 
 require (
 	github.com/go-logr/logr v1.2.3
+	github.com/mattn/go-sqlite3 v1.14.14
 	github.com/pckhoi/meow v0.0.0-20211009023351-e1fff1d3c870
 	github.com/wrgl/wrgl v0.0.0
 )
